@@ -204,3 +204,66 @@ def exec_chart(scn):
     elif form == 2:
         m = m.rate(1.0)
     return write_records(m, scn["id"], f"osu.write.built{form}")
+
+
+def bundled_scenarios(tier):
+    """the repository's own .osu maps, cut into self-contained files of <= 50 (quick) / 120 (thorough) hit objects each
+    (same header and timing points), so that real-world lines reach the validator"""
+    import glob
+    import os
+    from harness.common import REPO
+    files = sorted(glob.glob(os.path.join(REPO, "rsc", "maps", "osu", "*.osu")))
+    out = []
+    per_file = 1 if tier == "quick" else 12
+    size = 50 if tier == "quick" else 120
+    for f in files:
+        with open(f, encoding="utf8") as fh:
+            lines = fh.read().split("\n")
+        try:
+            ix = [ln.strip() for ln in lines].index("[HitObjects]")
+        except ValueError:
+            continue
+        head, objs = lines[:ix + 1], [ln for ln in lines[ix + 1:] if ln.strip()]
+        # ... and thousands of storyboard samples: keep the first 40
+        nsmp = 0
+        kept = []
+        for ln in head:
+            if ln.startswith("Sample,"):
+                nsmp += 1
+                if nsmp > 40:
+                    continue
+            kept.append(ln)
+        head = kept
+        # real maps carry thousands of SV lines: every cut file keeps at most 80 timing points (an evenly spaced
+        # selection that always contains the first one), which is again a valid .osu text
+        try:
+            it = [ln.strip() for ln in head].index("[TimingPoints]")
+            tp_lines = [ln for ln in head[it + 1:-1] if ln.strip() and not ln.strip().startswith("[")]
+            if len(tp_lines) > 80:
+                stepx = len(tp_lines) / 80.0
+                tp_lines = [tp_lines[int(j * stepx)] for j in range(80)]
+            head = head[:it + 1] + tp_lines + ["", ""] + [head[-1]]
+        except ValueError:
+            pass
+        chunks = [objs[i:i + size] for i in range(0, len(objs), size)]
+        step = max(1, len(chunks) // per_file)
+        for k, ch in list(enumerate(chunks))[len(chunks) // 3::step][:per_file]:
+            out.append({"id": f"b.{os.path.basename(f)}.{k}", "lines": head + ch})
+    return out
+
+
+def exec_bundled(scn):
+    from reamber.osu.OsuMap import OsuMap
+    lines = scn["lines"]
+    rec = {"id": scn["id"] + "/read", "op": "read", "cls": "osu.read.bundled", "exc": "", "file": lex(lines), "chart": {}}
+    out = [rec]
+    try:
+        m = OsuMap.read(lines)
+        rec["chart"] = proj_chart(m)
+    except ProjectionError as e:
+        rec["exc"] = "Projection:" + str(e)
+        return out
+    except Exception as e:
+        rec["exc"] = exc_name(e)
+        return out
+    return out + write_records(m, scn["id"], "osu.write.bundled")
